@@ -22,10 +22,14 @@ func init() {
 
 type quietReporter struct{ msgs []string }
 
-func (q *quietReporter) Error(a ...interface{})            { q.msgs = append(q.msgs, fmt.Sprint(a...)) }
-func (q *quietReporter) Errorf(f string, a ...interface{}) { q.msgs = append(q.msgs, fmt.Sprintf(f, a...)) }
-func (q *quietReporter) Fatal(a ...interface{})            { q.msgs = append(q.msgs, fmt.Sprint(a...)) }
-func (q *quietReporter) Fatalf(f string, a ...interface{}) { q.msgs = append(q.msgs, fmt.Sprintf(f, a...)) }
+func (q *quietReporter) Error(a ...interface{}) { q.msgs = append(q.msgs, fmt.Sprint(a...)) }
+func (q *quietReporter) Errorf(f string, a ...interface{}) {
+	q.msgs = append(q.msgs, fmt.Sprintf(f, a...))
+}
+func (q *quietReporter) Fatal(a ...interface{}) { q.msgs = append(q.msgs, fmt.Sprint(a...)) }
+func (q *quietReporter) Fatalf(f string, a ...interface{}) {
+	q.msgs = append(q.msgs, fmt.Sprintf(f, a...))
+}
 
 type rec struct {
 	key, val  string
